@@ -95,6 +95,37 @@ def inline_unknown_helpers(raw, max_rounds=4):
     return done
 
 
+def unknown_local_fns(raw):
+    """local functions that are not part of the pinned tree (helpers introduced by an edit)"""
+    known = known_fns()
+    return {b["path"] for b in raw["bodies"] if b["kind"] in ("Fn", "AssocFn") and b["path"] not in known}
+
+
+def value_referenced(raw, paths):
+    """which of `paths` are used as function *values* (passed to map/and_then/...), by referrer"""
+    out = {}
+
+    def walk(o, referrer):
+        if isinstance(o, dict):
+            if o.get("k") == "const" and "fn" in o:
+                p = o["fn"].get("resolved") or o["fn"]["path"]
+                if p in paths:
+                    out.setdefault(p, set()).add(referrer)
+            for k, v in o.items():
+                if k != "func":
+                    walk(v, referrer)
+        elif isinstance(o, list):
+            for v in o:
+                walk(v, referrer)
+
+    for b in raw["bodies"]:
+        for blk in b["blocks"]:
+            walk(blk["stmts"], b["path"])
+            t = blk["term"]
+            walk({k: v for k, v in t.items() if k != "func"}, b["path"])
+    return out
+
+
 def _splice(caller, bi, callee):
     lo = len(caller["locals"])
     bo = len(caller["blocks"])
